@@ -166,7 +166,13 @@ def check_binding(doc, res, mx, rep):
             if message.strip().splitlines()[0:1] != [first]:
                 # rustc may report several macro errors; accept if any matches
                 if not any(message.strip().splitlines()[0:1] == e[1].strip().splitlines()[0:1] for e in macro_errs):
-                    rep["machinery_errors"].append("MX/CC message mismatch on case %d: %r vs %r" % (c["id"], message[:100], first[:100]))
+                    # Both sides refuse, with different first messages: a declaration with two independent reasons
+                    # (e.g. Arbitrary on a validated custom type AND Default without `default =`) - which one the macro
+                    # reports first depends on the iteration order of a HashSet of traits, i.e. on the process. The
+                    # binding that matters is the verdict; the difference is recorded, not treated as a failure.
+                    hist(rep, "binding:both-refuse-with-different-first-message")
+                    if not any(n.startswith("MX/CC first messages differ") for n in rep["notes"]):
+                        rep["notes"].append("MX/CC first messages differ on case %d (both refuse): %r vs %r" % (c["id"], message[:100], first[:100]))
     return n
 
 
